@@ -513,7 +513,7 @@ def compatible(req, sig):
 # Builders (the only part that imports the code under test)
 # ---------------------------------------------------------------------------------------------
 
-def build_host(fh):
+def build_host(fh, into=None):
     import numpy as np
     import onnx_ir as ir
     vals = {}
@@ -544,9 +544,24 @@ def build_host(fh):
         for o, v in zip(outs, nd.outputs):
             vals[o] = v
         nodes.append(nd)
-    graph = ir.Graph([vals[v] for v in fh.graph_inputs], [vals[v] for v in sorted(fh.gouts)], nodes=nodes,
-                     initializers=inits, opset_imports={"": 18, DOMAIN: 1}, name="host")
-    model = ir.Model(graph, ir_version=10)
+    if into is not None:
+        # edit an existing graph object in place so that it becomes this host (same ir.Graph / ir.Model objects: what a
+        # rewrite pass does to the graph between two matcher calls)
+        model, graph = into
+        graph.outputs.clear()
+        graph.remove(list(graph), safe=False)
+        for k in list(graph.initializers):
+            del graph.initializers[k]
+        graph.inputs.clear()
+        graph.inputs.extend(vals[v] for v in fh.graph_inputs)
+        for v in inits:
+            graph.register_initializer(v)
+        graph.extend(nodes)
+        graph.outputs.extend(vals[v] for v in sorted(fh.gouts))
+    else:
+        graph = ir.Graph([vals[v] for v in fh.graph_inputs], [vals[v] for v in sorted(fh.gouts)], nodes=nodes,
+                         initializers=inits, opset_imports={"": 18, DOMAIN: 1}, name="host")
+        model = ir.Model(graph, ir_version=10)
     if fh.cnode:
         # what RewriteRuleSet.apply_to_model does before matching: Constant nodes get their const_value
         import onnxscript.optimizer
